@@ -18,9 +18,3 @@ void _ZN9QDateTimeD1Ev(char *self) { }
 #endif
 uint32_t vp_c05_noff(void) { return C05_NOFF; }
 uint32_t vp_c05_ndis(void) { return C05_NDIS; }
-/* Class-level override (inline member, -fno-inline): QList<QString>'s default constructor eagerly owns an empty block of the
-   QListData model instead of pointing at QListData::shared_null.  Observable behaviour is the same (empty, unshared list);
-   the point is that a later push_back under a symbolic condition only moves `end` instead of switching the block pointer. */
-#ifdef HAVE_T_struct_QListData__Data
-void _ZN5QListI7QStringEC2Ev(char *self) { LD(self) = ld_new(0); }
-#endif
